@@ -508,6 +508,9 @@ Section RT.
   Variable fmt_float : bool -> N -> bytes.
   Variable any_inner : bytes -> bytes -> outcome bytes.
   Variable dsc : scalar_kind -> jvalue -> outcome (option pval).
+  Variable raw : jvalue -> bytes.
+  Hypothesis Hraw_ne : forall j, wfb j = true -> raw j <> [].
+  Variable mapchk : bool.
   Variable env : env.
 
   (* the properties whose proto path addresses a field: an exposed oneof stands for its members *)
@@ -600,8 +603,10 @@ Section RT.
   | EV_map it es es' :
       Forall2 (fun kv kv' => fst kv = fst kv' /\ equiv_value it (snd kv) (snd kv')) es es' ->
       equiv_value (FMap it) (VMap es) (VMap es')
-  | EV_any m m' t :
-      sfield 1 m' = sfield 1 m -> any_text m = Ok t -> msg_get 3 m' = Some (VBytes t) ->
+  | EV_any m m' Jd :
+      (* same type name; the stored payload is [raw] of the JSON value the encoder embedded *)
+      sfield 1 m' = sfield 1 m -> wfb Jd = true -> any_text m = Ok (print Jd) ->
+      msg_get 3 m' = Some (VBytes (raw Jd)) ->
       equiv_value (FAny false) (VMsg m) (VMsg m')
   (* equal property by property: hence an empty flattened sub-message and an absent one agree *)
   with equiv_props : list property -> msg -> msg -> Prop :=
@@ -701,12 +706,12 @@ Section RT.
 
   (* ---------------------------------------------------------------- one step of each decoder function *)
   Notation dec_scalar := dsc.
-  Notation dec_value := (dec_value dsc env).
-  Notation dec_member := (dec_member dsc env).
-  Notation dec_members := (dec_members dsc env).
-  Notation dec_oneof := (dec_oneof dsc env).
-  Notation dec_items := (dec_items dsc env).
-  Notation dec_entries := (dec_entries dsc env).
+  Notation dec_value := (dec_value dsc raw mapchk env).
+  Notation dec_member := (dec_member dsc raw mapchk env).
+  Notation dec_members := (dec_members dsc raw mapchk env).
+  Notation dec_oneof := (dec_oneof dsc raw mapchk env).
+  Notation dec_items := (dec_items dsc raw mapchk env).
+  Notation dec_entries := (dec_entries dsc raw mapchk env).
 
   Lemma dec_member_S f d p j m seen :
     dec_member (S f) d p j m seen =
@@ -823,7 +828,7 @@ Section RT.
                   | _, None => Err "no value found in Any"
                   | Some tn, Some v =>
                       if pb then Err "proto is required for PB Any"
-                      else Ok (msg_put n (VMsg (msg_set false [] 3 (VBytes (print v)) (msg_set false [] 1 (VStr tn) sub))) h1)
+                      else Ok (msg_put n (VMsg (msg_set false [] 3 (VBytes (raw v)) (msg_set false [] 1 (VStr tn) sub))) h1)
                   end))
           | _ => Err "unexpected token, expected {"
           end
@@ -963,11 +968,11 @@ Section RT.
 
   Lemma any_result_equiv mv tn Jv : wfb Jv = true -> tn = sfield 1 mv -> any_text mv = Ok (print Jv) ->
     equiv_value (FAny false) (VMsg mv)
-      (VMsg (msg_set false [] 3 (VBytes (print Jv)) (msg_set false [] 1 (VStr tn) []))).
+      (VMsg (msg_set false [] 3 (VBytes (raw Jv)) (msg_set false [] 1 (VStr tn) []))).
   Proof.
-    intros Hwf Htn Htxt. pose proof (print_nonempty Jv Hwf) as Hpn.
-    assert (Hk3 : kept false (VBytes (print Jv)) = true) by (cbn; destruct (print Jv); [congruence|reflexivity]).
-    apply EV_any with (t := print Jv); [|exact Htxt|apply msg_get_set_same; exact Hk3].
+    intros Hwf Htn Htxt. pose proof (Hraw_ne Jv Hwf) as Hpn.
+    assert (Hk3 : kept false (VBytes (raw Jv)) = true) by (cbn; destruct (raw Jv); [congruence|reflexivity]).
+    apply EV_any with (Jd := Jv); [|exact Hwf|exact Htxt|apply msg_get_set_same; exact Hk3].
     unfold sfield at 1. rewrite msg_get_set_other by (exact Hk3 || lia). cbn [existsb].
     destruct tn as [|c r] eqn:Et.
     - cbn. rewrite <- Htn. reflexivity.
@@ -1086,7 +1091,7 @@ Section RT.
         exists acc', (VMap es'). split; [exact Hh|]. split; [constructor; exact Hf2|]. split; assumption.
       - (* any *)
         destruct Hdec as (-> & ms & mv & tn & Jv & -> & -> & Ham & Htn & Htxt).
-        set (sub' := msg_set false [] 3 (VBytes (print Jv)) (msg_set false [] 1 (VStr tn) [])).
+        set (sub' := msg_set false [] 3 (VBytes (raw Jv)) (msg_set false [] 1 (VStr tn) [])).
         destruct (setter_fresh_msg (p_siblings l) n sub' (hole a acc) Hfresh) as [Hmut Hset].
         assert (Hk : (fun n0 h => let '(sub, h1) := msg_mutable (p_siblings l) n0 h in
                        obind (any_members ms None None) (fun vt =>
@@ -1095,7 +1100,7 @@ Section RT.
                          | _, None => Err "no value found in Any"
                          | Some tn0, Some v0 =>
                              if false then Err "proto is required for PB Any"
-                             else Ok (msg_put n0 (VMsg (msg_set false [] 3 (VBytes (print v0)) (msg_set false [] 1 (VStr tn0) sub))) h1)
+                             else Ok (msg_put n0 (VMsg (msg_set false [] 3 (VBytes (raw v0)) (msg_set false [] 1 (VStr tn0) sub))) h1)
                          end))
                      n (hole a acc) = Ok (msg_put n (VMsg sub') (msg_put n (VMsg []) (msg_clear_all (p_siblings l) (hole a acc)))))
           by (cbv beta; rewrite Hmut, Ham; reflexivity).
@@ -1218,6 +1223,7 @@ Section RT.
           match it with
           | FScalar k =>
               if mem_b key seen then Err "key already exists in map"
+              else if mapchk && (match map_get key acc with Some _ => true | None => false end) then Err "key already exists in map"
               else if is_container j then Err "unexpected token, expected scalar"
               else obind (dec_scalar k j) (fun v =>
                      match v with
@@ -1225,7 +1231,8 @@ Section RT.
                      | Some x => dec_entries f d it r (map_set key x acc) (key :: seen)
                      end)
           | FEnum ref =>
-              if mem_b key seen then Err "key already exists in map" else
+              if mem_b key seen then Err "key already exists in map"
+              else if mapchk && (match map_get key acc with Some _ => true | None => false end) then Err "key already exists in map" else
               match j, lookup env ref with
               | JStr s, Some (SEnum prefix opts) =>
                   match option_by_name prefix opts s with
@@ -1355,12 +1362,12 @@ Section RT.
         destruct (Hfresh k2 (or_intror Hk2)) as [Hg Hs]. split; [rewrite map_get_snoc by exact Hne; exact Hg|].
         destruct Hs2 as [->| ->]; [exact Hs|]. intros [E|Hin]; [congruence|contradiction]. }
       destruct it as [sk|r|r|r|it'|it'|pb]; try discriminate; cbn [dec_ok_value] in Hdec.
-      + destruct Hdec as (Hnc & v' & Hds & Heq & _). rewrite Hseen, Hnc, Hds. cbn [obind].
+      + destruct Hdec as (Hnc & v' & Hds & Heq & _). rewrite Hseen, Hget, andb_false_r, Hnc, Hds. cbn [obind].
         rewrite map_set_fresh by exact Hget.
         destruct (IH Hnd' F d (acc ++ [(k, v')]) (k :: seen)) as (es' & Hes' & Hf); [lia|exact Hd'|apply Hnext; right; reflexivity|].
         exists ((k, v') :: es'). rewrite Hes', <- app_assoc. split; [reflexivity|].
         constructor; [split; [reflexivity|constructor; exact Heq]|exact Hf].
-      + destruct Hdec as (pre & opts & s & z & Hlk & -> & Hbn & ->). rewrite Hseen, Hlk, Hbn.
+      + destruct Hdec as (pre & opts & s & z & Hlk & -> & Hbn & ->). rewrite Hseen, Hget, andb_false_r, Hlk, Hbn.
         rewrite map_set_fresh by exact Hget.
         destruct (IH Hnd' F d (acc ++ [(k, VEnum z)]) (k :: seen)) as (es' & Hes' & Hf); [lia|exact Hd'|apply Hnext; right; reflexivity|].
         exists ((k, VEnum z) :: es'). rewrite Hes', <- app_assoc. split; [reflexivity|].
@@ -1733,7 +1740,7 @@ Section RT.
     rep_root root m -> encode fmt_float any_inner env root m = Ok txt ->
     exists J, strict_parse txt = Some J /\
       (N.of_nat (jnest J) <= max_nesting ->
-       exists m', decode_tree dsc env root J = Ok m' /\ equiv_root root m m').
+       exists m', decode_tree dsc raw mapchk env root J = Ok m' /\ equiv_root root m m').
   Proof.
     unfold rep_root, equiv_root, encode, encode_fuel, decode_tree, decode_tree_fuel. intros Hrep H.
     set (f := (4 * pval_depth (VMsg m) + 4)%nat) in *. destruct (T_all f) as (_ & TOb & TOn).
@@ -1882,3 +1889,21 @@ Proof.
   intros is32 bits _ _. unfold inst_fmt, inst_parse_float. rewrite parse_N_print_nat by lia. rewrite N2Z.id. reflexivity.
 Qed.
 
+(* arrays and maps hold scalars, enums, objects or oneofs (what the reflector builds); the decoder
+   family's model refuses other element types before looking at the elements *)
+Definition ty_ok (t : field_ty) : bool :=
+  match t with FArray it | FMap it => item_ok it | _ => true end.
+Definition env_items_ok (e : env) : Prop :=
+  forall r ps, lookup e r = Some (SObject ps) \/ lookup e r = Some (SOneof ps) ->
+    forall p, In p ps -> ty_ok (p_ty p) = true.
+Definition env_items_ok_b (e : env) : bool :=
+  forallb (fun ns => match snd ns with
+                     | SObject ps | SOneof ps => forallb (fun p => ty_ok (p_ty p)) ps
+                     | SEnum _ _ => true
+                     end) e.
+Lemma env_items_ok_b_sound e : env_items_ok_b e = true -> env_items_ok e.
+Proof.
+  intros H r ps Hlk p Hp. unfold env_items_ok_b in H. rewrite forallb_forall in H.
+  destruct Hlk as [Hlk|Hlk]; destruct (lookup_in _ _ _ Hlk) as (n' & Hin); specialize (H _ Hin); cbn [snd] in H;
+    rewrite forallb_forall in H; apply H; exact Hp.
+Qed.
